@@ -233,7 +233,8 @@ def rule_c(ctx):
     for s in sorted(sentinels):
         defs = sel_defs.get(s, [])
         mod_level = core.constants.get(s) if not defs else None
-        is_class = s in core.classes and not defs
+        is_class = (s in core.classes and not defs) or (bool(defs) and all(
+            isinstance(d, ast.Name) and d.id in core.classes and d.id not in sel_defs for d in defs))
         local_object = any(isinstance(d, ast.Call) and A.dotted(d.func) == 'object' for d in defs) or (
             mod_level is not None and isinstance(mod_level, ast.Call) and A.dotted(mod_level.func) == 'object')
         by_ref = is_class or (mod_level is not None and isinstance(mod_level, ast.Constant)
